@@ -53,7 +53,7 @@ def run(tier):
     seed = common.seed()
     groups, gstats = c01.build_corpus(tier, seed)
     recs, cnt, setnames = sfscorpus.collect(tier, groups)
-    limit = 6 if tier == "quick" else 8
+    limit = 5 if tier == "quick" else 8
     small, large = [], []
     for r in recs:
         ps = r["sfs"]
@@ -62,9 +62,9 @@ def run(tier):
              "subins": [t for s in (r["subins"] or []) for t in [s]] if r["subins"] is not None else gen.tokens(r["raw"].get("original_instrs", "")),
              "_r": r}
         (small if ps["b0"] <= limit and len(ps["ins"]) <= 10 else large).append(c)
-    if tier == "quick" and len(small) > 2500:
+    if tier == "quick" and len(small) > 1200:
         import corpus
-        small = corpus.sample(small, 2500, seed)
+        small = corpus.sample(small, 1200, seed)
     for i, c in enumerate(small + large):
         c["id"] = i + 1
     strip = lambda c: {k: v for k, v in c.items() if not k.startswith("_")}
@@ -99,7 +99,9 @@ def run(tier):
         else:
             undecided += 1
     out = findings.settle("C16", viol, lambda c: {"block": c["_r"]["block"], "sub": c["_r"]["name"], "options": c["_r"]["opt"],
-                                                  "sfs": c["_r"]["raw"], "key": c["_r"]["raw"].get("original_instrs", "") + " @" + c["_r"]["opt"]})
+                                                  "sfs": c["_r"]["raw"], "key": c["_r"]["raw"].get("original_instrs", "") + " @" + c["_r"]["opt"]},
+                          lambda c: [c["_r"]["raw"].get("original_instrs", "") + " @" + c["_r"]["opt"]]
+                          + ["bounds|" + k for k in findings.rule_kinds(c["_r"]["raw"].get("rules", []))])
     if exhaustive_ok == 0:
         raise common.MachineryError("vacuity guard: no specification was searched exhaustively")
     cov = {"states": st["states"] + wst["states"], "transitions": st["transitions"] + wst["transitions"],
